@@ -287,3 +287,47 @@ def run(ctx):
             r5.ok("%s returns the slot it is asked for" % f.qname)
         else:
             r5.violation("%s:slot" % f.name, "get_cnt does not return cnts[<requested>]", loc=f.file)
+
+    # ------------------------------------------------------------------ R6
+    # from_lower must count what the lower layer delivered, not what fitted the caller's buffer: on a datagram
+    # socket the real length is only known with MSG_TRUNC; the operand must be recv's own result
+    r6 = ctx.rule("C17.R6", "from_lower_bytes counts the real length of what the lower layer delivered (datagram transports: recv with MSG_TRUNC)")
+    n6 = 0
+    for (f, e, lhs, rhs, op, c) in stores:
+        if c != "xcm_tp_cnt_from_lower_bytes" or rhs is None:
+            continue
+        recvs = list(f.calls("recv"))
+        if not recvs:
+            continue
+        n6 += 1
+        r6.instance(f.qname)
+        # operand: a local that holds recv's result
+        rn = f.sn(rhs)
+        src_ok = False
+        flag_ok = True
+        dgram = f.file.endswith("ux/xcm_tp_ux.c")
+        for rc_ in recvs:
+            par = f.parents().get(rc_)
+            while par is not None and f.nodes[par]["k"] in ("cast", "paren"):
+                par = f.parents().get(par)
+            pn = f.nodes.get(par, {})
+            holder = None
+            if pn.get("k") == "decl":
+                holder = [v["did"] for v in pn["vars"] if v.get("init") is not None and f.strip(v["init"]) == f.strip(rc_)]
+                holder = holder[0] if holder else None
+            elif pn.get("k") == "bin" and pn["op"] == "=":
+                holder = f.sn(pn["l"]).get("did")
+            if holder is not None and rn.get("did") == holder:
+                src_ok = True
+            fl = C.const_of(f, f.nodes[rc_]["args"][3])
+            if dgram and not (fl is not None and fl & 0x20):
+                flag_ok = False
+        if src_ok and flag_ok:
+            r6.ok("%s: from_lower_bytes += the result of recv()%s" % (f.qname, " with MSG_TRUNC (the datagram's real length)" if dgram else ""), "value origin + constant flag")
+        elif not src_ok:
+            r6.violation("%s:from_lower:operand" % f.name, "from_lower_bytes grows by %s, which is not the lower layer's own result" % f.show(rhs), loc=f.loc(e))
+        else:
+            r6.violation("%s:from_lower:truncated" % f.name, "recv() without MSG_TRUNC returns only what fitted the buffer: from_lower_bytes under-counts a truncated "
+                         "message and disagrees with the sender's to_lower_bytes for good", loc=f.loc(e))
+    if n6 < 2:
+        raise Broken("C17.R6: only %d from_lower updates next to a recv()" % n6)
